@@ -948,6 +948,8 @@ def claim_c01(kind, mm):
         # (a job's removal set is an observed oracle: a job that removed a row it had no right
         # to remove -- an outstanding delivery, a message still needed -- shows as illegal-choice)
         return "MDels" in mm or "MMsgs" in mm or "delivery" in mm or (k == "Job" and "illegal-choice" in mm)
+    if k == "CreateSnap":
+        return "MSnaps" in mm      # what a snapshot records decides which messages a later seek to it may retire
     return False
 
 
@@ -1003,7 +1005,7 @@ def claim_c17(kind, mm):
 def claim_c05(kind, mm):
     k = kind.split(":")[0]
     return (k == "Publish" and ("MDels" in mm or "MTime" in mm)) or (k == "Pull" and ("illegal-selection" in mm or "MResp" in mm)) or \
-        (kind in ("Job:PruneCompletedDeliveries", "Job:PruneExpiredDeliveries") and "MDels" in mm) or \
+        (kind in ("Job:PruneCompletedDeliveries", "Job:PruneExpiredDeliveries") and ("MDels" in mm or "illegal-choice" in mm)) or \
         "d.not_before" in mm      # predecessor links written by any step (dead-letter forwards included)
 
 
